@@ -221,7 +221,7 @@ def draw_options(rng, fmt, trajs, ref, meta, work, force=None):
         o["right"] = bool(rng.random() < .5)
         o["propagate"] = o["right"] and bool(rng.random() < .4)
         o["invert"] = bool(rng.random() < .4)
-        path, M, form, s = write_transform(rng, work, sim_ok=not o["right"], ext=meta["ext"])
+        path, M, form, s = write_transform(rng, work, sim_ok=True, ext=meta["ext"])
         o["tf"] = M
         o["tf_form"] = form
         o["tf_scale"] = s
